@@ -17,7 +17,11 @@ for id in $ids; do
   [ -f $p ] || continue
   prop=${id%%-*}
   git -C $wt checkout -q -- . ; git -C $wt clean -qfd
-  if ! git -C $wt apply $p 2>/dev/null; then echo "$id PATCH-DOES-NOT-APPLY" | tee $out/$id.txt; continue; fi
+  if ! git -C $wt apply $p 2>/dev/null; then
+    # the mutated lines were rewritten by a later fix: use the equivalent change re-made on the current code
+    p=$sd/$id/patch_rebased.diff
+    if [ ! -f $p ] || ! git -C $wt apply $p 2>/dev/null; then echo "$id PATCH-DOES-NOT-APPLY" | tee $out/$id.txt; continue; fi
+  fi
   checks="$prop"; [ -f $sd/$id/also_checks ] && checks="$prop $(cat $sd/$id/also_checks)"
   : > $out/$id.txt
   for c in $checks; do
